@@ -52,7 +52,8 @@ def _pair_case(draw, target):
     route = draw(st.sampled_from(routes))
     m = draw(gen.pair_model(3, 1, pycallables=(route != "potable")))
     cutoff, nr = draw(gen.grid_rc(30, 2))
-    m.update({"target": target, "route": route, "cutoff": cutoff, "nr": nr})
+    m.update({"target": target, "route": route, "cutoff": cutoff, "nr": nr,
+              "container": draw(st.sampled_from(["list", "tuple", "iterator", "generator"]))})
     return m
 
 
@@ -109,7 +110,8 @@ def _check_gulp(m, cls):
     if route == "potable":
         out = libroute.write_text(libroute.read_text(ctx))
     else:
-        pots = pairtab.api_potentials(m)
+        pots = pairtab.api_potentials(m, m.get("container", "list"))
+        cls.append("container:" + m.get("container", "list"))
         fp = io.StringIO()
         if route == "class":
             GULP_PairTabulation(pots, cutoff, nr).write(fp)
